@@ -41,6 +41,19 @@ pub fn generate(g: &mut Gen, thorough: bool) {
     for x in [0.0, -0.0, f64::NAN, f64::INFINITY, -f64::INFINITY, 1e-300, -1e-300, 1e10, -4.3e9, 4294967296.0, 1e300] {
         angles.push(x);
     }
+    // a hair below and above a whole degree, a whole minute, a whole second (where a rounded field would have to carry)
+    for whole in [1.0f64, 12.0, 55.0, 90.0, 179.0, 180.0, 359.0] {
+        for sub in [0.0, 30.0 / 60.0, 59.0 / 60.0, 30.0 / 60.0 + 59.0 / 3600.0, 59.0 / 60.0 + 59.0 / 3600.0] {
+            for eps in [1e-14, 1e-13, 1e-12, 2e-12, 5e-12, 8e-12, 1e-11, 1e-10, 1e-9] {
+                for sgn in [1.0, -1.0] {
+                    angles.push(sgn * (whole + sub - eps));
+                    angles.push(sgn * (whole + sub + eps));
+                }
+            }
+            angles.push(f64::from_bits((whole + sub).to_bits() - 1));
+            angles.push(-f64::from_bits((whole + sub).to_bits() - 1));
+        }
+    }
     for x in &angles {
         for f in ["dd_to_iso_dm", "dd_to_iso_dms", "iso_dm_to_dd", "iso_dms_to_dd"] {
             g.push(format!("ANG\t{}\t{}", f, fbits(*x)), f, true);
